@@ -171,10 +171,12 @@ func init() {
 				e1run("docarr-live-n2-d4", "doc", 2, 4, "arr", o, nil, "live", 0),
 				e1run("list-skew-n3-d4", "list", 3, 4, "mid", o, nil, "skew", 0),
 				e1run("docarr-skew-n3-d4", "doc", 3, 4, "arr", o, nil, "skew", 0),
+				e1run("docarr-cbatch-live-n2-d3", "doc", 2, 3, "arr cbatch", o, nil, "live", 0),
 			}
 		} else {
 			p.BudgetS = 3300
 			p.Runs = []Run{
+				e1run("docarr-cbatch-live-n2-d4", "doc", 2, 4, "arr cbatch", o, nil, "live", 600000),
 				e1run("list-n2-d6", "list", 2, 6, "batch", o, nil, "", 600000),
 				e1run("list-n3-d5", "list", 3, 5, "", o, nil, "", 600000),
 				e1run("list-n4-d4", "list", 4, 4, "", o, nil, "", 600000),
@@ -307,6 +309,7 @@ func init() {
 				e1run("doc-deep-n2-d2", "doc", 2, 2, "arr", o, nil, "deep-doc", 0),
 				e1run("list-skew-n3-d4", "list", 3, 4, "mid", o, nil, "skew", 0),
 				e1run("counter-skew-n3-d4", "counter", 3, 4, "", o, nil, "skew", 0),
+				e1run("docarr-cbatch-live-n2-d3", "doc", 2, 3, "arr cbatch", o, nil, "live", 0),
 			}
 		} else {
 			p.BudgetS = 3300
@@ -320,6 +323,7 @@ func init() {
 				e1run("doc-deep-n2-d4", "doc", 2, 4, "arr", o, nil, "deep-doc", 600000),
 				e1run("list-skew-n3-d5", "list", 3, 5, "mid", o, nil, "skew", 600000),
 				e1run("map-skew-n3-d5", "map", 3, 5, "", o, nil, "skew", 600000),
+				e1run("docarr-cbatch-live-n2-d4", "doc", 2, 4, "arr cbatch", o, nil, "live", 600000),
 			}
 		}
 		return p
@@ -572,15 +576,31 @@ func init() {
 func init() {
 	plans["C17"] = func(tier string) Plan {
 		p := Plan{ID: "C17", Level: "model_checking",
-			Rule: "breadth-first search over histories of 2-4 real clients spread over 2 (thorough 3) collections that use the SAME keys: open, local operation, Sync, ResetCollection of either collection, and foreign " +
+			Rule: "(race-* runs) stateless schedule search over simultaneous CreateCollection calls for one new name (and a ResetCollection next to them), followed by two sequential creations: collection numbers pairwise distinct, every stored document belongs to an existing collection; (other runs) breadth-first search over histories of 2-4 real clients spread over 2 (thorough 3) collections that use the SAME keys: open, local operation, Sync, ResetCollection of either collection, and foreign " +
 				"requests (a client naming the other collection; a pack carrying the id of the other collection's datatype with option bits 0..3); frame oracle on EVERY transition: the projection of the database " +
 				"dump onto every other collection (documents by collection number, user collection by name) is unchanged, collection numbers stay distinct, a reset leaves nothing of its collection, no foreign " +
 				"operations are handed out, foreign-collection requests are refused; plus C05/C06 oracles per collection",
 			Assume: []string{assumeE2, assumeInstr}}
 		o := []string{"isolate", "log", "converge", "applied"}
+		// racing administration: the same new collection created twice at once (and next to a reset), then two more
+		// collections created one after the other: numbers stay pairwise distinct
+		mkrace := func(n int, reset bool) e2sched {
+			var conc []pact
+			for i := 0; i < n; i++ {
+				conc = append(conc, pact{Op: "mkcoll", R: 0, T: "colNew"})
+			}
+			if reset {
+				conc = append(conc, pact{Op: "resetcoll", R: 0, T: "colA"})
+			}
+			return e2sched{E2: e2p{Clients: 2, Type: "counter", Colls: []string{"colA", "colB"}, Prefix: "joined", Tolerant: true}, Conc: conc,
+				AtEnd: []string{"collections"}}
+		}
+		p.Assume = append(p.Assume, assumeSched)
 		if tier == "quick" {
 			p.BudgetS = 480
 			p.Runs = []Run{
+				schedRun("race-create-collection-2-b3", 3, mkrace(2, false), 0),
+				schedRun("race-create-collection-2-reset-b2", 2, mkrace(2, true), 0),
 				e2run("counter-2col-2c-joined-d4", e2p{Clients: 2, Type: "counter", Colls: []string{"colA", "colB"}, Prefix: "joined", Foreign: true, Alpha: "one", Oracles: o}, 4, 0),
 				e2run("counter-2col-4c-joined-d3", e2p{Clients: 4, Type: "counter", Colls: []string{"colA", "colB"}, Prefix: "joined", Foreign: true, Alpha: "one", Oracles: o}, 3, 0),
 				e2run("counter-2col-2c-entry-d4", e2p{Clients: 2, Type: "counter", Colls: []string{"colA", "colB"}, Modes: []string{"soc"}, Foreign: true, Alpha: "one", Oracles: o}, 4, 0),
@@ -588,6 +608,9 @@ func init() {
 		} else {
 			p.BudgetS = 3300
 			p.Runs = []Run{
+				schedRun("race-create-collection-2-b4", 4, mkrace(2, false), 0),
+				schedRun("race-create-collection-3-b3", 3, mkrace(3, false), 0),
+				schedRun("race-create-collection-2-reset-b3", 3, mkrace(2, true), 0),
 				e2run("counter-2col-2c-joined-d6", e2p{Clients: 2, Type: "counter", Colls: []string{"colA", "colB"}, Prefix: "joined", Foreign: true, Alpha: "one", Oracles: o}, 6, 300000),
 				e2run("counter-2col-4c-joined-d5", e2p{Clients: 4, Type: "counter", Colls: []string{"colA", "colB"}, Prefix: "joined", Foreign: true, Alpha: "one", Oracles: o}, 5, 300000),
 				e2run("list-3col-3c-joined-d5", e2p{Clients: 3, Type: "list", Colls: []string{"colA", "colB", "colC"}, Prefix: "joined", Foreign: true, Oracles: o}, 5, 300000),
@@ -628,6 +651,13 @@ type e2sched struct {
 	AtPoint []string `json:"at_point,omitempty"`
 	AtEnd   []string `json:"at_end"`
 	NoClose bool     `json:"no_close,omitempty"`
+	Policy  *spolicy `json:"policy,omitempty"`
+}
+
+// spolicy mirrors w.schedPolicy.
+type spolicy struct {
+	FastNotify bool     `json:"fast_notify,omitempty"`
+	SlowRPC    []string `json:"slow_rpc,omitempty"`
 }
 
 // pact mirrors pt.Action for plans.
@@ -688,7 +718,7 @@ func localOp(typ string, r int) pact {
 func init() {
 	plans["C11"] = func(tier string) Plan {
 		p := Plan{ID: "C11", Level: "model_checking",
-			Rule: "stateless schedule search: two clients push (one of them twice) on each datatype type; every push spawns the real background activity (notify, then UpdateSnapshot: lock, read latest snapshot, read later " +
+			Rule: "(seq-* runs) breadth-first search over all histories of local operations (puts, removals, nested values, batches) and Syncs of two clients with the background snapshot update run to completion after every request, the snapshot / user-document oracle below evaluated after EVERY request; (other runs) stateless schedule search: two clients push (one of them twice, or a put followed by its removal) on each datatype type; every push spawns the real background activity (notify, then UpdateSnapshot: lock, read latest snapshot, read later " +
 				"operations, insert snapshot, replace user document) whose database commands are scheduling points, so the search places every snapshot update at every position relative to the later pushes and to " +
 				"the other pending updates, up to the deviation bound; oracle at EVERY decision point: each stored snapshot (duid, v) imported into a fresh datatype equals the replay of log[1..v], each user document " +
 				"equals the JSON view of replay(log[1.._orda_ver_]) and its version never decreases; at the end additionally GetLatestDatatype() = replay of the whole log = every client (closing syncs)",
@@ -701,12 +731,41 @@ func init() {
 				},
 				AtPoint: []string{"snapshots"}, AtEnd: []string{"snapshots", "log", "converge", "reference"}}
 		}
+		// sequential part: every push history (puts, removals, nested values, batches) with the background update run
+		// to completion after each request; the same snapshot / user-document oracle after EVERY request
+		so := []string{"snapshots", "log", "converge"}
+		// put-then-remove under the schedule search: client 0 puts and later removes what it put
+		mkrm := func(typ string) e2sched {
+			put, rem := pact{Op: "put", R: 0, K: "a", V: "p", T: "k1|"}, pact{Op: "rem", R: 0, K: "a", T: "k1|"}
+			if typ == "doc" {
+				put, rem = pact{Op: "dput", R: 0, K: "a", V: "o", T: "k1|"}, pact{Op: "ddel", R: 0, K: "a", T: "k1|"}
+			}
+			return e2sched{E2: e2p{Clients: 2, Type: typ, Prefix: "joined", Tolerant: true},
+				Conc: []pact{
+					{Op: "seq", R: 0, Sub: []pact{put, {Op: "sync", R: 0}, rem, {Op: "sync", R: 0}}},
+					{Op: "seq", R: 1, Sub: []pact{localOp(typ, 1), {Op: "sync", R: 1}}},
+				},
+				AtPoint: []string{"snapshots"}, AtEnd: []string{"snapshots", "log", "converge", "reference"}}
+		}
 		if tier == "quick" {
 			p.BudgetS = 600
-			p.Runs = []Run{schedRun("counter-b2", 2, mk("counter"), 0), schedRun("list-b2", 2, mk("list"), 0), schedRun("doc-b1", 1, mk("doc"), 0), schedRun("map-b1", 1, mk("map"), 0)}
+			p.Runs = []Run{schedRun("counter-b2", 2, mk("counter"), 0), schedRun("list-b2", 2, mk("list"), 0), schedRun("doc-b1", 1, mk("doc"), 0), schedRun("map-b1", 1, mk("map"), 0),
+				schedRun("map-put-remove-b1", 1, mkrm("map"), 0), schedRun("doc-put-remove-b1", 1, mkrm("doc"), 0),
+				e2run("seq-map-2c-joined-d4", e2p{Clients: 2, Type: "map", Prefix: "joined", Alpha: "rich", Oracles: so}, 4, 0),
+				e2run("seq-doc-2c-joined-d3", e2p{Clients: 2, Type: "doc", Prefix: "joined", Oracles: so}, 3, 0),
+				e2run("seq-list-2c-joined-d4", e2p{Clients: 2, Type: "list", Prefix: "joined", Alpha: "batch", Oracles: so}, 4, 0),
+				e2run("seq-counter-2c-entry-d5", e2p{Clients: 2, Type: "counter", Oracles: so}, 5, 0),
+			}
 		} else {
 			p.BudgetS = 3400
-			p.Runs = []Run{schedRun("counter-b3", 3, mk("counter"), 0), schedRun("list-b2", 2, mk("list"), 0), schedRun("doc-b2", 2, mk("doc"), 0), schedRun("map-b2", 2, mk("map"), 0)}
+			p.Runs = []Run{schedRun("counter-b3", 3, mk("counter"), 0), schedRun("list-b2", 2, mk("list"), 0), schedRun("doc-b2", 2, mk("doc"), 0), schedRun("map-b2", 2, mk("map"), 0),
+				schedRun("map-put-remove-b2", 2, mkrm("map"), 0), schedRun("doc-put-remove-b2", 2, mkrm("doc"), 0),
+				e2run("seq-map-2c-joined-d6", e2p{Clients: 2, Type: "map", Prefix: "joined", Alpha: "rich", Oracles: so}, 6, 300000),
+				e2run("seq-doc-2c-joined-d5", e2p{Clients: 2, Type: "doc", Prefix: "joined", Oracles: so}, 5, 300000),
+				e2run("seq-list-2c-joined-d5", e2p{Clients: 2, Type: "list", Prefix: "joined", Alpha: "batch", Oracles: so}, 5, 300000),
+				e2run("seq-counter-2c-entry-d6", e2p{Clients: 2, Type: "counter", Oracles: so}, 6, 300000),
+				e2run("seq-doc-3c-ahead-d4", e2p{Clients: 3, Type: "doc", Prefix: "ahead", Alpha: "arr", Oracles: so}, 4, 300000),
+			}
 		}
 		return p
 	}
@@ -748,7 +807,17 @@ func init() {
 			}
 			return e2sched{E2: e2p{Clients: n, Type: typ, Prefix: "joined", SyncType: "realtime", Tolerant: true}, Conc: conc, AtEnd: []string{"quiescent", "log", "converge", "reference"}, NoClose: true}
 		}
+		// two clients push three operations one after the other while a third only listens - over a fast broker and a slow
+		// network for the listener (default schedule: notifications are delivered at once, the listener's requests reach
+		// the server last and its answers come back last): several notifications are under way within one of its round trips
+		rtl := func(typ string) e2sched {
+			a := rt(3, typ, false)
+			a.Conc = []pact{localOp(typ, 0), localOp(typ, 1), localOp(typ, 0)}
+			a.Policy = &spolicy{FastNotify: true, SlowRPC: []string{"c2"}}
+			return a
+		}
 		if tier == "quick" {
+			p.Runs = append(p.Runs, schedRun("realtime-counter-slow-listener-b1", 1, rtl("counter"), 0))
 			p.Runs = append(p.Runs, schedRun("realtime-counter-2-b2", 2, rt(2, "counter", false), 0), schedRun("realtime-list-2-b1", 1, rt(2, "list", true), 0))
 		} else {
 			p.Runs = append(p.Runs, schedRun("realtime-counter-2-b3", 3, rt(2, "counter", true), 0), schedRun("realtime-list-2-b2", 2, rt(2, "list", true), 0), schedRun("realtime-counter-3-b2", 2, rt(3, "counter", false), 0))
